@@ -53,6 +53,14 @@ CHECKS = {
              "level tolerance); both sides of Auto's 10^6-entry switch are exercised on 2^9 / 2^10 Kronecker operators "
              "with a factor-wise exact inverse.",
         design="5/C06", technique="TLC exact inverse oracle over enumerated trees + spec-to-code replay"),
+    "C07": dict(
+        text="TLC computes the exact determinant (Laplace expansion over Gaussian integers with the common "
+             "denominator) of every square tree it enumerates (products, Kronecker with unequal factors, BlockDiag "
+             "with multiplicities, diagonal, scalar of any size, identity, triangular, permutations of both parities, "
+             "dense, real and complex, determinants of both signs and on both sides of 1); replay evaluates slogdet / "
+             "logdet with (Auto,Auto), (LU,Auto), (Auto,Exact), (Arnoldi,Exact), (Cholesky,Auto), (Lanczos,Exact) and "
+             "requires sign*exp(logabs) = det, a unit-modulus sign and logdet = logabs.",
+        design="5/C07", technique="TLC exact determinant oracle over enumerated trees + spec-to-code replay"),
     "C20": dict(
         text="TLC resolves every index form (ints, slices incl. negative/strided/empty, integer arrays, lists) with the "
              "transcribed Python slice.indices / negative-wrap semantics (PyIndex.tla) on every operator tree and "
